@@ -23,7 +23,7 @@ vars == <<case, transport, pc, sess, view, wire, res, obsI, obsC>>
 
 None == [none |-> TRUE]
 
-Init == /\ case \in Ball("echo", EchoRadius) \cup Ball("gen", GenRadius)
+Init == /\ case \in Space("echo", EchoRadius) \cup Space("gen", GenRadius)      \* radius >= 3: the whole product
         /\ transport \in {"file", "pipe"}
         /\ pc = "route" /\ sess = None /\ view = None /\ wire = None /\ res = None /\ obsI = None /\ obsC = None
 
